@@ -319,3 +319,42 @@ Proof.
   rewrite Np. cbn [bind dget]. rewrite Nc. cbn [bind].
   destruct (filter_m _ (get_endpoints st)) as [l|e]; cbn [bind]; [reflexivity|]. destruct e; reflexivity.
 Qed.
+
+(* ------------------------------------------------------------------ the statements of Props/C20.v, over reachable states *)
+Lemma invariant_all_histories : forall ops, Inv (run_state empty_rd ops) /\ Settled (run_state empty_rd ops).
+Proof. intros ops. apply run_state_Inv; [apply empty_Inv|apply empty_Settled]. Qed.
+Lemma indexes_bijective_reachable : forall st, reachable st ->
+  NoDup (map fst (by_key st)) /\ NoDup (map fst (by_path st)) /\
+  (forall id, (exists k, In (k, id) (by_key st)) <-> (exists p, In (p, id) (by_path st))) /\
+  (forall k id, In (k, id) (by_key st) -> r_key (obj st id) = k /\ In (r_path (obj st id), id) (by_path st)) /\
+  (forall p id, In (p, id) (by_path st) -> r_path (obj st id) = p /\ In (r_key (obj st id), id) (by_key st)).
+Proof. intros st R. apply indexes_bijective_lemma. apply (reachable_Inv st R). Qed.
+Lemma distinct_locations_reachable : forall st k1 k2 id1 id2, reachable st ->
+  In (k1, id1) (by_key st) -> In (k2, id2) (by_key st) -> k1 <> k2 -> r_path (obj st id1) <> r_path (obj st id2).
+Proof. intros st k1 k2 id1 id2 R. apply distinct_locations_lemma. apply (reachable_Inv st R). Qed.
+Lemma failed_op_unchanged_reachable : forall st o st' r, reachable st -> step st o = (st', r) -> is_4xx r = true -> st' = st.
+Proof. intros st o st' r R. destruct (reachable_Inv st R) as [I S]. apply failed_op_unchanged_lemma; assumption. Qed.
+Lemma listed_iff_live_reachable : forall st, reachable st -> forall id r, In (id, r) (objs st) ->
+  ((exists k, In (k, id) (by_key st)) <-> exists due s, r_timer r = Some (due, s) /\ now st < due).
+Proof. intros st R. destruct (reachable_Inv st R) as [I S]. apply listed_iff_live_lemma; assumption. Qed.
+Lemma closures_never_raise_all_histories : forall ops,
+  loop_exceptions (run_state empty_rd ops) = 0 /\
+  Forall2 (fun o ob => is_lookup o = false -> o_resp ob <> Err KeyError) ops (run empty_rd ops).
+Proof. intros ops. apply run_no_exception; [apply empty_Inv|apply empty_Settled]. Qed.
+Lemma expiry_exact_reachable : forall st dt, reachable st -> 0 <= dt ->
+  let st' := fst (step st (Advance dt)) in
+  now st' = now st + dt /\
+  forall k id, In (k, id) (by_key st') <->
+               (In (k, id) (by_key st) /\ exists due s, r_timer (obj st id) = Some (due, s) /\ now st + dt < due /\ obj st' id = obj st id).
+Proof. intros st dt R. destruct (reachable_Inv st R) as [I S]. apply expiry_exact_lemma; assumption. Qed.
+Lemma other_registrations_untouched_reachable : forall st o st' r, reachable st -> is_advance o = false -> step st o = (st', r) ->
+  (forall k id, In (k, id) (by_key st') -> id < next_id st -> Some id <> target st o -> In (k, id) (by_key st) /\ obj st' id = obj st id) /\
+  (forall k id, In (k, id) (by_key st) -> Some id <> target st o ->
+     (In (k, id) (by_key st') /\ obj st' id = obj st id) \/ (exists loc, r = Created loc /\ k = r_key (obj (fst (handle st o)) (next_id st)))).
+Proof. intros st o st' r R. destruct (reachable_Inv st R) as [I S]. apply step_frame_lemma; assumption. Qed.
+Lemma lookup_exact_reachable : forall st, reachable st ->
+  ep_lookup st [] None = Content (str_links (map get_host_link (get_endpoints st))) /\
+  res_lookup st [] None = Content (str_links (map strip_anchor (flat_map get_based_links (get_endpoints st)))) /\
+  (forall r, In r (get_endpoints st) <-> exists id due s, In (id, r) (objs st) /\ r_timer r = Some (due, s) /\ now st < due) /\
+  NoDup (map r_key (get_endpoints st)) /\ NoDup (map r_path (get_endpoints st)).
+Proof. intros st R. destruct (reachable_Inv st R) as [I S]. apply lookup_exact_lemma; assumption. Qed.
